@@ -16,6 +16,10 @@ import Biogo.Model.ContWorld
 import Biogo.Proofs.Containers
 import Biogo.Proofs.ContFrame
 import Biogo.Proofs.ContAln
+import Biogo.Proofs.ContSepWorld
+import Biogo.Proofs.ContRow
+import Biogo.Proofs.ContModelObs
+import Biogo.Proofs.ContModelObs05
 
 namespace Biogo.Properties.C05
 open Biogo.Alphabet Biogo.Containers Biogo.Go
@@ -285,5 +289,258 @@ theorem clone_deep_alignment (cx : Ctx) (h : Cells) (a : Aln) (n : Nat) (hw : Co
 theorem history_observes_runOps (cx : Ctx) (w : World) (ops : List Op) :
     ∃ res, (runHistory cx w ops).getLast? = some (res, (runOps cx w ops).view cx) :=
   runHistory_last cx w ops
+
+/-! ### Clone is deep — every container kind, every operation of the C05 and C07 histories
+
+`WorldWF w`: every object of the world is well formed (its slices lie with their capacity inside
+allocated backing arrays; the rows of a multi / the columns of a column-stored alignment are in
+pairwise different arrays; all columns of an alignment have `Rows()` entries), different objects
+own different backing arrays, and no caller-owned buffer lies in an array an object owns.
+`Op.written op` is the object `op` is applied to (`none` for `Clone`, `Subseq`, and the
+operations on caller buffers).  `viewObj` is the complete observation the driver compares:
+per row `Start`, `End`, strand, name, kind and `At` over the span; `Column(p, true)`,
+`ColumnQL(p, true)`, `Column(p, false)` for every position of the span; the consensus letters. -/
+
+/-- the initial object of **every** history (linear, column-stored alignment, multi, set) is
+    well formed -/
+theorem initial_object_wellformed (cx : Ctx) (kind : String) (strand : Int) (rows : List SeqSpec) :
+    WorldWF (initWorld cx kind strand rows) :=
+  initWorld_wf cx kind strand rows
+
+/-- one operation of the histories — any of `RevComp`, `Reverse`, `Clone`, `Set`, row
+    `RevComp`/`Reverse`, `AppendColumns`, `AppendEach`, `Add`, `Delete`, `Flush`, `Truncate`,
+    `Subseq`, creation and mutation of a caller buffer — on any kind of object keeps the world
+    well formed and leaves every object it is not applied to, and its complete observation,
+    unchanged -/
+theorem operation_is_local (cx : Ctx) (w : World) (hw : WorldWF w) (op : Op) :
+    WorldWF (apply cx w op).1 ∧
+    ∀ (j : Nat) (oj : Obj), op.written ≠ some j → w.objs[j]? = some oj →
+      (apply cx w op).1.objs[j]? = some oj ∧
+      viewObj cx (apply cx w op).1.cells oj = viewObj cx w.cells oj :=
+  step_all cx w hw op
+
+/-- **frame, all container kinds**: in a well-formed world — column-stored `alignment.Seq/QSeq`
+    included, and with caller-owned buffers — whatever sequence of operations of the C05 and C07
+    histories is applied to *other* objects or to caller buffers, an object stays the same and
+    its complete observation stays the same. -/
+theorem untouched_object_unchanged_all (cx : Ctx) (w : World) (hw : WorldWF w) (ops : List Op)
+    (j : Nat) (oj : Obj) (hj : w.objs[j]? = some oj) (hnot : ∀ op ∈ ops, op.written ≠ some j) :
+    (runOps cx w ops).objs[j]? = some oj ∧
+    viewObj cx (runOps cx w ops).cells oj = viewObj cx w.cells oj :=
+  untouched_all cx ops w hw j oj hj hnot
+
+/-- **clone_deep, all container kinds, all histories.**  Let object `k` — a `linear.Seq/QSeq`, a
+    `multi.Multi` or a column-stored `alignment.Seq/QSeq` — be cloned in a well-formed world (the
+    copy is object `n = w.objs.length`).  (a) The complete observation of the copy equals that of
+    the original.  (b) After any sequence of operations of the C05 and C07 histories none of
+    which is applied to the original, the original is observed exactly as before — whatever is
+    written through the copy, through other objects or through caller buffers.  (c) After any
+    sequence none of which is applied to the copy, the copy is observed as the original was when
+    it was cloned.  (The hypothesis `WorldWF` holds of every reachable state:
+    `initial_object_wellformed`, `operation_is_local`.) -/
+theorem clone_deep_all (cx : Ctx) (w : World) (hw : WorldWF w) (k : Nat) (o : Obj)
+    (hk : w.objs[k]? = some o) (hclonable : ∀ m, o ≠ .set m) (ops : List Op) :
+    let w1 := (apply cx w (.clone k)).1
+    ∃ c, w1.objs[w.objs.length]? = some c ∧ viewObj cx w1.cells c = viewObj cx w.cells o ∧
+      ((∀ op ∈ ops, op.written ≠ some k) →
+        (runOps cx w1 ops).objs[k]? = some o ∧
+        viewObj cx (runOps cx w1 ops).cells o = viewObj cx w.cells o) ∧
+      ((∀ op ∈ ops, op.written ≠ some w.objs.length) →
+        (runOps cx w1 ops).objs[w.objs.length]? = some c ∧
+        viewObj cx (runOps cx w1 ops).cells c = viewObj cx w.cells o) := by
+  intro w1
+  obtain ⟨c, hc, hobs⟩ := clone_view_equal cx w hw k o hk hclonable
+  obtain ⟨hw1, hoth1⟩ := step_all cx w hw (.clone k)
+  obtain ⟨hk1, hko⟩ := hoth1 k o (by simp [Op.written]) hk
+  refine ⟨c, hc, hobs, ?_, ?_⟩
+  · intro hnot
+    have r := untouched_all cx ops w1 hw1 k o hk1 hnot
+    exact ⟨r.1, r.2.trans hko⟩
+  · intro hnot
+    have r := untouched_all cx ops w1 hw1 w.objs.length c hc hnot
+    exact ⟨r.1, r.2.trans hobs⟩
+
+-- non-vacuity: a quality alignment of two rows and three columns is cloned; the copy's row 0 is
+-- reverse-complemented, a row is deleted from it and a column appended to it from a caller
+-- buffer that is mutated afterwards; the original is observed exactly as at the start
+example :
+    let cx : Ctx := { comp := fun l => l, gap := 45, amb := 110,
+                      alpha := ⟨[], 0, fun _ => false, fun _ => -1, 45, 110, false⟩, grow := growExact }
+    let w0 := initWorld cx "qaln" 1 [⟨true, 0, 1, 0, [⟨65, 30⟩, ⟨67, 31⟩, ⟨71, 32⟩]⟩,
+                                    ⟨true, 0, 1, 1, [⟨71, 20⟩, ⟨71, 21⟩, ⟨84, 22⟩]⟩]
+    let w := runOps cx w0 [.clone 0, .rowRevComp 1 0, .delete 1 1, .mkbuf [⟨84, 9⟩] 0, .appendCols 1 [0],
+                           .mutbuf 0 0 ⟨67, 1⟩]
+    ((w.objs.map fun o => (viewObj cx w.cells o).rows.map fun r => (r.strand, r.cells.map (·.L)))
+        = [[(1, [65, 67, 71]), (1, [71, 71, 84])], [(-1, [71, 67, 65, 84])]]) ∧
+    (w0.objs.map (viewObj cx w0.cells)) = (w.objs.take 1).map (viewObj cx w.cells) := by decide
+
+/-! ### alignment.Row / alignment.QRow: RevComp and Reverse of one row of a column-stored alignment -/
+
+/-- **revcomp_spec (alignment.Row, alignment.QRow).** For a well-formed alignment of `n` rows and
+    `r < n`: after `Row(r).RevComp()` row `r` reads (`At` over the span) as the reverse of what it
+    read with every letter complemented, each quality travelling with its letter; every other
+    row reads exactly as before; only the strand of row `r`'s annotation is negated (every other
+    row annotation, and name and offset of row `r`, are untouched); the alignment's own strand,
+    coordinates and columns are unchanged, and no backing array outside the alignment's columns
+    is written. -/
+theorem row_revcomp_spec_alignment (cx : Ctx) (h : Cells) (a : Aln) (n : Nat) (hw : ColsWF h n a.cols)
+    (r : Nat) (hr : r < n) :
+    (a.rowRevComp cx h r).2.rowLetters (a.rowRevComp cx h r).1 r
+        = (a.rowLetters h r).reverse.map (compQL cx.comp) ∧
+    (∀ r', r' ≠ r → (a.rowRevComp cx h r).2.rowLetters (a.rowRevComp cx h r).1 r' = a.rowLetters h r') ∧
+    (∀ i : Nat, (a.rowRevComp cx h r).2.subs[i]? =
+      if r = i then (a.subs[i]?).map (fun s => { s with strand := -s.strand }) else a.subs[i]?) ∧
+    (a.rowRevComp cx h r).2.strand = a.strand ∧ (a.rowRevComp cx h r).2.start = a.start ∧
+    (a.rowRevComp cx h r).2.«end» = a.«end» ∧ (a.rowRevComp cx h r).2.cols = a.cols ∧
+    ColsWF (a.rowRevComp cx h r).1 n (a.rowRevComp cx h r).2.cols ∧
+    (∀ b, b ∉ a.cols.map (·.arr) → (a.rowRevComp cx h r).1.arr b = h.arr b) := by
+  obtain ⟨s1, s2, s3, s4⟩ := Aln.rowRevComp_spec cx h a n hw r hr
+  refine ⟨s1, s2, ?_, rfl, rfl, rfl, rfl, s3, s4⟩
+  intro i
+  exact getElem?_modify_if a.subs r i _
+
+/-- **Row.Reverse / QRow.Reverse**: row `r` reads reversed (qualities travelling), every other row
+    as before; the strand of row `r`'s annotation becomes `seq.None`. -/
+theorem row_reverse_spec_alignment (h : Cells) (a : Aln) (n : Nat) (hw : ColsWF h n a.cols)
+    (r : Nat) (hr : r < n) :
+    (a.rowReverse h r).2.rowLetters (a.rowReverse h r).1 r = (a.rowLetters h r).reverse ∧
+    (∀ r', r' ≠ r → (a.rowReverse h r).2.rowLetters (a.rowReverse h r).1 r' = a.rowLetters h r') ∧
+    (∀ i : Nat, (a.rowReverse h r).2.subs[i]? =
+      if r = i then (a.subs[i]?).map (fun s => { s with strand := 0 }) else a.subs[i]?) ∧
+    (a.rowReverse h r).2.strand = a.strand ∧ (a.rowReverse h r).2.cols = a.cols ∧
+    ColsWF (a.rowReverse h r).1 n (a.rowReverse h r).2.cols := by
+  obtain ⟨s1, s2, s3, _⟩ := Aln.rowReverse_spec h a n hw r hr
+  refine ⟨s1, s2, ?_, rfl, rfl, s3⟩
+  intro i
+  exact getElem?_modify_if a.subs r i _
+
+/-- **revcomp_involutive / reverse_involutive (alignment.Row, alignment.QRow).** `Row(r).RevComp()`
+    twice restores the letters and qualities of every row, every row annotation (the strand of
+    row `r` included) and the alignment's strand; `Row(r).Reverse()` twice restores the letters
+    and qualities of every row. -/
+theorem row_revcomp_involutive_alignment (cx : Ctx) (h : Cells) (a : Aln) (n : Nat) (hw : ColsWF h n a.cols)
+    (r : Nat) (hr : r < n) (hinv : ∀ c ∈ a.rowLetters h r, cx.comp (cx.comp c.L) = c.L) :
+    let r1 := a.rowRevComp cx h r
+    let r2 := r1.2.rowRevComp cx r1.1 r
+    let v1 := a.rowReverse h r
+    let v2 := v1.2.rowReverse v1.1 r
+    (∀ r', r2.2.rowLetters r2.1 r' = a.rowLetters h r') ∧ r2.2.subs = a.subs ∧ r2.2.strand = a.strand ∧
+    (∀ r', v2.2.rowLetters v2.1 r' = a.rowLetters h r') := by
+  intro r1 r2 v1 v2
+  obtain ⟨a1, a2, a3, _⟩ := Aln.rowRevComp_spec cx h a n hw r hr
+  obtain ⟨b1, b2, _, _⟩ := Aln.rowRevComp_spec cx r1.1 r1.2 n a3 r hr
+  obtain ⟨c1, c2, c3, _⟩ := Aln.rowReverse_spec h a n hw r hr
+  obtain ⟨d1, d2, _, _⟩ := Aln.rowReverse_spec v1.1 v1.2 n c3 r hr
+  refine ⟨?_, ?_, rfl, ?_⟩
+  · intro r'
+    by_cases e : r' = r
+    · subst e; rw [b1, a1]; exact map_comp_twice cx.comp _ hinv
+    · rw [b2 r' e, a2 r' e]
+  · show Aln.modSub (Aln.modSub a.subs r _) r _ = a.subs
+    apply List.ext_getElem?
+    intro i
+    simp only [Aln.modSub]
+    rw [getElem?_modify_if, getElem?_modify_if]
+    by_cases e : r = i
+    · simp only [e, if_true]
+      cases a.subs[i]? with
+      | none => rfl
+      | some s => simp only [Option.map_some, Int.neg_neg]
+    · simp only [e, if_false]
+  · intro r'
+    by_cases e : r' = r
+    · subst e; rw [d1, c1, List.reverse_reverse]
+    · rw [d2 r' e, c2 r' e]
+
+-- non-vacuity: Row(0).RevComp() of the 2 x 3 quality alignment above (identity complement)
+example :
+    let cx : Ctx := { comp := fun l => l, gap := 45, amb := 110,
+                      alpha := ⟨[], 0, fun _ => false, fun _ => -1, 45, 110, false⟩, grow := growExact }
+    let w := runOps cx (initWorld cx "qaln" 1 [⟨true, 0, 1, 0, [⟨65, 30⟩, ⟨67, 31⟩, ⟨71, 32⟩]⟩,
+                                                ⟨true, 0, 1, 1, [⟨71, 20⟩, ⟨71, 21⟩, ⟨84, 22⟩]⟩]) [.rowRevComp 0 0]
+    (w.objs.map fun o => (viewObj cx w.cells o).rows.map fun r => (r.strand, r.cells))
+      = [[(-1, [⟨71, 32⟩, ⟨67, 31⟩, ⟨65, 30⟩]), (1, [⟨71, 20⟩, ⟨71, 21⟩, ⟨84, 22⟩])]] := by decide
+
+/-! ### multi.Set, and the row view of `alignment.Seq.Reverse` -/
+
+/-- **revcomp_spec (multi.Set).** `Set.RevComp` reverse-complements every row in place: letters
+    reversed and complemented (qualities travelling), strand negated, and — a set has no common
+    coordinate system — every row keeps its own coordinates; the rows stay well formed. -/
+theorem revcomp_spec_set (cx : Ctx) (h : Cells) (m : Multi) (hwf : RowsWF h m.rows) :
+    All2 (fun r r' =>
+        r'.letters (m.setRevComp cx h).1 = (r.letters h).reverse.map (compQL cx.comp)
+        ∧ r'.strand = -r.strand ∧ r'.start = r.start ∧ r'.«end» = r.«end» ∧ r'.q = r.q ∧ r'.name = r.name)
+      m.rows (m.setRevComp cx h).2.rows ∧
+    RowsWF (m.setRevComp cx h).1 (m.setRevComp cx h).2.rows := by
+  obtain ⟨rows', h2, hall, _, _⟩ := rowsFold_spec (fun h r => r.revComp cx h) (inPlace_revComp cx)
+    (fun bl r al r' => al = bl.reverse.map (compQL cx.comp) ∧ r'.strand = -r.strand ∧ r'.start = r.start ∧
+      r'.«end» = r.«end» ∧ r'.q = r.q ∧ r'.name = r.name)
+    (fun h r hv => ⟨(Lin.revComp_spec cx h r hv).1, rfl, rfl, rfl, rfl, rfl⟩) m.rows h [] hwf
+  have hm : m.setRevComp cx h = ((rowsFold (fun h r => r.revComp cx h) m.rows (h, [])).1,
+      { m with rows := (rowsFold (fun h r => r.revComp cx h) m.rows (h, [])).2 }) := rfl
+  rw [hm]
+  simp only [List.nil_append] at h2
+  simp only [h2]
+  exact ⟨hall.imp_mem fun a b _ hab => hab.1,
+         rowsWF_of_all2 (hall.imp_mem fun a b _ hab => ⟨hab.2.1, hab.2.2⟩) hwf⟩
+
+/-- **revcomp_involutive (multi.Set).** -/
+theorem revcomp_involutive_set (cx : Ctx) (h : Cells) (m : Multi) (hwf : RowsWF h m.rows)
+    (hinv : ∀ r ∈ m.rows, ∀ c ∈ r.letters h, cx.comp (cx.comp c.L) = c.L) :
+    let m1 := m.setRevComp cx h
+    let m2 := m1.2.setRevComp cx m1.1
+    All2 (fun r r2 => r2.letters m2.1 = r.letters h ∧ r2.strand = r.strand ∧ r2.start = r.start ∧
+        r2.«end» = r.«end» ∧ r2.q = r.q ∧ r2.name = r.name) m.rows m2.2.rows := by
+  intro m1 m2
+  obtain ⟨a1, wf1⟩ := revcomp_spec_set cx h m hwf
+  obtain ⟨a2, _⟩ := revcomp_spec_set cx m1.1 m1.2 wf1
+  refine (a1.trans a2).imp_mem fun r r2 hrm ⟨r1', hab, hbc⟩ => ?_
+  obtain ⟨l1, s1, b1, c1, q1, n1⟩ := hab
+  obtain ⟨l2, s2, b2, c2, q2, n2⟩ := hbc
+  refine ⟨?_, by omega, by rw [b2, b1], by rw [c2, c1], by rw [q2, q1], by rw [n2, n1]⟩
+  rw [l2, l1]; exact map_comp_twice cx.comp _ (hinv r hrm)
+
+/-- **alignment.Seq/QSeq.Reverse, row view**: every row reads reversed (qualities travelling);
+    the strand becomes `seq.None`; nothing is written to the heap (the column headers are swapped) -/
+theorem reverse_spec_alignment (h : Cells) (a : Aln) (r : Nat) :
+    a.reverse.rowLetters h r = (a.rowLetters h r).reverse ∧ a.reverse.strand = 0 ∧
+    a.reverse.subs = a.subs ∧ a.reverse.start = a.start ∧ a.reverse.«end» = a.«end» := by
+  have h1 : a.reverse.cols = a.cols.reverse := twoPtr_reverse a.cols
+  refine ⟨?_, rfl, rfl, rfl, ?_⟩
+  · have hq : a.reverse.q = a.q := rfl
+    simp only [Aln.rowLetters, h1, hq, List.map_reverse]
+  · simp only [Aln.«end», h1, List.length_reverse]; rfl
+
+/-! ### the model satisfies the declarative statements the executable laws stand for
+
+`Laws.RevCompSpec`, `Laws.RowRevCompSpec`, `Laws.FrameSpec` (Proofs/ContLawsSound.lean) are what
+`lawRevComp`, `lawRowRevComp`, `lawFrame` are proved to imply of the implementation's
+observations (`C05_laws.c05_verdict_sound`).  Here they are proved of the model's own
+observations: one proposition, a theorem on the model's side and a sound executable check on
+the implementation's side. -/
+
+/-- **revcomp_spec and multi_revcomp_mirror, observation level**: in a well-formed world, for an
+    object of any kind (linear, column-stored alignment, multi, set), the observation after
+    `RevComp` is related to the observation before by `RevCompSpec`: every row reads as the
+    reverse complement with qualities travelling and its name kept; strands negated; a
+    column-stored alignment keeps its coordinates, the rows of a multi are mirrored about its
+    span which is kept, the rows of the other kinds keep their coordinates. -/
+theorem revcomp_on_observations (cx : Ctx) (w : World) (hw : WorldWF w) (k : Nat) (o : Obj)
+    (hk : w.objs[k]? = some o) (hrange : ∀ m, o = .multi m → m.InRange) :
+    ∃ b a, (w.view cx)[k]? = some b ∧ ((apply cx w (.revComp k)).1.view cx)[k]? = some a ∧
+      Laws.RevCompSpec cx.comp b a :=
+  model_revcomp cx w hw k o hk hrange
+
+/-- `Row(r).RevComp()` of a well-formed column-stored alignment, observation level -/
+theorem row_revcomp_on_observations (cx : Ctx) (h : Cells) (a : Aln) (n : Nat) (hc : ColsCapWF h n a.cols)
+    (r : Nat) (hr : r < a.rows) :
+    Laws.RowRevCompSpec cx.comp (viewObj cx h (.aln a))
+      (viewObj cx (a.rowRevComp cx h r).1 (.aln (a.rowRevComp cx h r).2)) r :=
+  model_rowRevComp_aln cx h a n hc r hr
+
+/-- **clone_deep as a frame statement, observation level** -/
+theorem frame_on_observations (cx : Ctx) (w : World) (hw : WorldWF w) (op : Op) :
+    Laws.FrameSpec (w.view cx) ((apply cx w op).1.view cx) op.written :=
+  model_frame cx w hw op
 
 end Biogo.Properties.C05
